@@ -30,21 +30,30 @@ def parseVerb : String → Option Verb
   | "stop" => some .stop | "start" => some .start | "pause" => some .pause | "resume" => some .resume
   | "restart" => some .restart | "disable" => some .disable | "enable" => some .enable | _ => none
 
+/-- a node-relative request; commands nest: `rcmd <y> <command…>`, `lcmd <u> <p> <command…>` -/
+def parseCmd : List String → Option Cmd
+  | ["file", k] => do some (.file (← k.toNat?))
+  | ["adduser", u, p, a] => do some (.addUser u p (← parseBool a))
+  | ["disable", u] => some (.disableUser u)
+  | ["chpw", u, o, nw] => some (.changePassword u o nw)
+  | "lcmd" :: u :: p :: rest => do some (.localCmd u p (← parseCmd rest))
+  | ["rlogin", y, u, p] => do some (.remoteLogin (← y.toNat?) u p)
+  | "rcmd" :: y :: rest => do some (.remoteCmd (← y.toNat?) (← parseCmd rest))
+  | ["rlogoff", y] => do some (.remoteLogoff (← y.toNat?))
+  | ["usmlogin", u, p, peer] => do some (.usmLogin u p (← peer.toNat?))
+  | ["usmlogout", i] => do some (.usmLogout (← i.toNat?))
+  | ["svc", s, v] => do some (.svc (← parseSvcName s) (← parseVerb v))
+  | ["shutdown"] => some .shutdown
+  | ["startup"] => some .startup
+  | ["reset"] => some .reset
+  | _ => none
+
 def parseOp : List String → Option Op
-  | ["adduser", y, u, p, a] => do some (.addUser (← y.toNat?) u p (← parseBool a))
-  | ["disable", y, u] => do some (.disableUser (← y.toNat?) u)
-  | ["chpw", y, u, o, nw] => do some (.changePassword (← y.toNat?) u o nw)
+  | ["enable", y, u] => do some (.enableUser (← y.toNat?) u)
   | ["llogin", y, u, p] => do some (.localLogin (← y.toNat?) u p)
   | ["llogout", y] => do some (.localLogout (← y.toNat?))
-  | ["lcmd", y, u, p, k] => do some (.localCmd (← y.toNat?) u p (← k.toNat?))
-  | ["rlogin", x, y, u, p] => do some (.remoteLogin (← x.toNat?) (← y.toNat?) u p)
-  | ["rcmd", x, y, k] => do some (.remoteCmd (← x.toNat?) (← y.toNat?) (← k.toNat?))
-  | ["rlogoff", x, y] => do some (.remoteLogoff (← x.toNat?) (← y.toNat?))
-  | ["svc", y, s, v] => do some (.svc (← y.toNat?) (← parseSvcName s) (← parseVerb v))
-  | ["shutdown", y] => do some (.shutdown (← y.toNat?))
-  | ["startup", y] => do some (.startup (← y.toNat?))
-  | ["reset", y] => do some (.reset (← y.toNat?))
   | ["tick"] => some .tick
+  | "req" :: y :: rest => do some (.req (← y.toNat?) (← parseCmd rest))
   | _ => none
 
 def stepLine (n : Net) : List String → Net × String
